@@ -197,3 +197,23 @@ Theorem c06_op62_conservative : forall cf pl ins xs,
   /\ filter not_armka (snd (xrun_auto cf pl xs ins)) = filter not_armka (snd (conn_run_auto cf pl (ts_conn (xs_t xs)) ins)).
 Proof. exact xrun_auto_conservative. Qed.
 Print Assumptions c06_op62_conservative.
+
+(* the latency term cannot be dropped: the manager re-arms from the instant it serves the token, so a reachable state has its
+   keep-alive deadline later than last-KEEPALIVE-or-UPDATE + H/3 (by the 0.6 s the token waited, in this run).  This is why the
+   property says "about" a third; on the implementation the wait is a goroutine rendezvous (microseconds, measured by the live part) *)
+Theorem c06_latency_term_is_needed : exists cf pl xs dl,
+  reachable_x cf pl xs /\ up (c_phase (ts_conn (xs_t xs))) = true /\ c_holdns (ts_conn (xs_t xs)) <> 0
+  /\ ts_ka (xs_t xs) = Some dl /\ last_tx xs + c_holdns (ts_conn (xs_t xs)) / 3 < dl.
+Proof.
+  pose (cf := mkConf 167772161 65001 65000 9).
+  pose (pl := mkPlug None (fun _ => None) []).
+  pose (o := mkOpen 4 65000 30 167772162 [[mkCap 65 [0;0;253;232]]]).
+  pose (s := 1000000000).
+  pose (ins := [(1 * s, XConn (IRd (RMsg (MOpen o)))); (0, XConn IApprove); (1 * s, XConn (IRd (RMsg MKeepalive)));
+                (0, XConn IApprove); (1 * s, XWrite [0;0;0;0]); (6 * s / 10, XReset 0)]).
+  destruct (xrun cf pl (xinit 0) ins) as [[xs acts]|] eqn:E; [|vm_compute in E; discriminate].
+  exists cf, pl, xs, (66 * s / 10).
+  split; [exists 0, ins, acts; exact E|].
+  vm_compute in E. injection E as <- _. vm_compute. repeat split; try reflexivity. discriminate.
+Qed.
+Print Assumptions c06_latency_term_is_needed.
